@@ -701,6 +701,10 @@ def wrapping(E, st, frame, b, t, c, args):
     res, ovf = A.int_binop(op, a, bb, ty)
     lo_t, hi_t = int_range(ty)
     if res is None or res == BOT or ovf:
+        if res not in (None, BOT) and op in ('Add', 'Sub') and lo_t == 0:
+            m = hi_t + 1
+            if res[0] // m == res[1] // m:      # the whole interval wraps the same number of times
+                return mk_int(res[0] % m, res[1] % m, 0, T('o', E.site(frame, b, 'w')))
         return mk_int(lo_t, hi_t, 0, T('o', E.site(frame, b, 'w')))
     return E.reg(mk_int(res[0], res[1], res[2], A.mkterm(op, a[4], bb[4])))
 
@@ -1840,6 +1844,22 @@ def to_string(E, frame, b, t, sts, c, quiet):
     out = sts
     if targ:
         tt = E.types.get(targ[0])
+        if tt['k'] in ('int', 'uint'):
+            res = []
+            for st in sts:
+                v = scalar_of(E, st, E.operand(st, frame, t['args'][0]), targ[0])
+
+                def digits(x):
+                    return len(str(abs(x))) + (1 if x < 0 else 0)
+                if v[0] == 'I':
+                    lo, hi = v[1], v[2]
+                    dl = 1 if lo <= 0 <= hi else min(digits(lo), digits(hi))
+                    dh = max(digits(lo), digits(hi))
+                else:
+                    dl, dh = 1, 40
+                E.write_dest(st, frame, t, ('S', mk_int(dl, dh), mk_int(0x2d, 0x39), None))
+                res.append(st)
+            return res
         if tt['k'] == 'str' or E.types.is_seq_adt(tt):
             # Display for str / String writes the bytes unchanged
             res = []
@@ -1895,17 +1915,38 @@ def seq_iter(E, st, frame, b, t, c, args):
     if seq[0] != 'S':
         return ('T', E.dest_ty(frame, t), E.site(frame, b, 'it'))
     el, ln = _elem_of_seq(E, st, seq)
+    if c['item'] == 'chars':
+        # number of chars = number of bytes for ASCII content, else between bytes/4 and bytes
+        ascii_ = seq[3] is not None and all(is_const(x) and x[1] < 128 for x in seq[3])
+        if not ascii_ and not (el[0] == 'I' and el[2] < 128):
+            ln = mk_int((ln[1] + 3) // 4, ln[2])
     by_ref = c['item'] in ('iter', 'iter_mut') or (E.expand(args[0])[0] == 'R' and c['item'] == 'into_iter')
+    items = None
+    if c['item'] == 'chars' and seq[3] is not None and 0 < len(seq[3]) <= 40 and all(is_const(x) and x[1] < 128 for x in seq[3]):
+        return ('O', 'iter', (el, ln, tuple(seq[3]), 0))
+    if seq[3] is not None and 0 < len(seq[3]) <= 40 and c['item'] in ('iter', 'into_iter') and ln[1] == ln[2] == len(seq[3]):
+        if by_ref and lv is not None:
+            items = tuple(('R', lv[0], lv[1] + (('i', k),), False) for k in range(len(seq[3])))
+        elif not by_ref:
+            items = tuple(seq[3])
     if by_ref and lv is not None:
         el = ('R', lv[0], lv[1] + (('i*', None),), c['item'] == 'iter_mut')
     elif by_ref:
         el = ('R', None, (), False)
+    if items is not None:
+        return ('O', 'iter', (el, ln, items, 0))
     return ('O', 'iter', (el, ln))
 
 
 def _iter_payload(v):
     if v[0] == 'O' and v[1] == 'iter':
-        return v[2]
+        return v[2][:2]
+    return None
+
+
+def _iter_items(v):
+    if v[0] == 'O' and v[1] == 'iter' and len(v[2]) > 2:
+        return v[2][2]
     return None
 
 
@@ -1989,8 +2030,41 @@ def iter_consumers(E, frame, b, t, sts, c, quiet):
         p = _iter_payload(itv)
         s2 = st
         res = None
+        items = _iter_items(itv)
+        if p is not None and items is not None and item in ('position', 'any', 'all') and cls and len(itv[2]) > 3:
+            # literal container: evaluate the predicate on every remaining element; exact when all
+            # results are constants
+            ci, body = cls[0]
+            pos0 = itv[2][3]
+            verdicts = []
+            s3 = s2
+            for it in items[pos0:]:
+                s3, r = E.run_closure_any(frame, b, t, s3, ci, body, quiet, arg_vals=[it])
+                r = E.scalar(s3, r, E.types.by_name('bool')) if r != BOT else r
+                verdicts.append(r[1] if r != BOT and r[0] == 'I' and r[1] == r[2] else None)
+            if None not in verdicts:
+                s2 = s3
+                if item == 'position':
+                    k = next((i for i, v in enumerate(verdicts) if v == 1), None)
+                    res = ('E', None, ((1, (const_int(k),)),)) if k is not None else ('E', None, ((0, ()),))
+                elif item == 'any':
+                    res = const_int(1 if any(v == 1 for v in verdicts) else 0)
+                else:
+                    res = const_int(1 if all(v == 1 for v in verdicts) else 0)
+                E.write_dest(s2, frame, t, res)
+                out.append(s2)
+                continue
         if p is not None:
             el, ln = p
+            if item == 'nth' and items is not None and len(itv[2]) > 3 and len(args) > 1:
+                n = E.scalar(s2, args[1], E.types.by_name('usize'))
+                pos0 = itv[2][3]
+                if n[0] == 'I' and n[1] == n[2]:
+                    k = pos0 + n[1]
+                    res = ('E', None, ((1, (items[k],)),)) if k < len(items) else ('E', None, ((0, ()),))
+                    E.write_dest(s2, frame, t, res)
+                    out.append(s2)
+                    continue
             if item in ('all', 'any', 'position', 'find', 'for_each', 'find_map', 'rposition') and cls:
                 ci, body = cls[0]
                 av = el
@@ -2020,6 +2094,21 @@ def iter_consumers(E, frame, b, t, sts, c, quiet):
                     res = ('A', ())
             elif item == 'count':
                 res = ln
+            elif item == 'nth' and len(args) > 1:
+                n = E.scalar(s2, args[1], E.types.by_name('usize'))
+                some = ln[2] > 0
+                none = True
+                if n[0] == 'I':
+                    if n[2] < ln[1] or (n[4] is not None and ln[4] is not None and n[1] >= 0 and E.entails_lt(s2, n[4], ln[4])):
+                        none = False            # n < remaining length on every path
+                    if n[1] >= ln[2]:
+                        some = False
+                parts = []
+                if none:
+                    parts.append((0, ()))
+                if some:
+                    parts.append((1, (el,)))
+                res = ('E', T('e', E.site(frame, b, 'ic')), tuple(parts))
             elif item in ('last', 'nth', 'max', 'min'):
                 parts = [(0, ())]
                 if ln[2] > 0:
@@ -2061,6 +2150,14 @@ def iter_next(E, st, frame, b, t, c, args):
     if p is None:
         return E.expand(('T', dty, E.site(frame, b, 'nx')))
     el, ln = p
+    items = _iter_items(itv)
+    if items is not None and E.elementwise and r0[0] == 'R' and r0[1] is not None:
+        # a small literal container is iterated element by element (the loop is unrolled)
+        pos = itv[2][3]
+        if pos < len(items):
+            E.write_lv(st, (r0[1], r0[2]), ('O', 'iter', (el, mk_int(max(ln[1] - 1, 0), max(ln[2] - 1, 0)), items, pos + 1)))
+            return ('E', None, ((1, (items[pos],)),))
+        return ('E', None, ((0, ()),))
     parts = [(0, ())]
     if ln[2] > 0:
         parts.append((1, (el,)))
@@ -2268,3 +2365,199 @@ def tablestate_select(E, st, frame, b, t, c, args):
     if r[0] == 'R' and r[1] is not None:
         E.write_lv(st, (r[1], r[2]), ('O', 'tablestate', (args[1],)))
     return ('A', ())
+
+
+# ------------------------------------------------------------------------------------------
+# String + &str, integer to_string, once_cell::Lazy, vec![..]
+
+@model(['add', 'add_assign'], trait=('std::ops::Add', 'std::ops::AddAssign'), pred=lambda c: (c.get('rself') or '') in ('std::string::String', 'alloc::string::String'))
+def string_add(E, st, frame, b, t, c, args):
+    a, lv = seq_of(E, st, args[0], None)
+    bb_, _ = seq_of(E, st, args[1], None)
+    if a[0] == 'S' and bb_[0] == 'S':
+        l1, l2 = st.resolve(a[1]), st.resolve(bb_[1])
+        items = a[3] + bb_[3] if a[3] is not None and bb_[3] is not None and len(a[3]) + len(bb_[3]) <= 64 else None
+        res = ('S', E.reg(mk_int(l1[1] + l2[1], min(l1[2] + l2[2], U63), 0, A.mkterm('Add', l1[4], l2[4]))), join(a[2], bb_[2]), items)
+    else:
+        res = ('S', mk_int(0, U63), mk_int(0, 255), None)
+    if c['item'] == 'add_assign':
+        if lv is not None:
+            E.write_lv(st, lv, res)
+        return ('A', ())
+    return res
+
+
+@model(['to_string'], trait='std::string::ToString', pred=lambda c: c.get('rcrate') == 'alloc' and (c.get('rself') or '') in PRIMS)
+def int_to_string(E, st, frame, b, t, c, args):
+    v = scalar_of(E, st, args[0])
+    if v[0] != 'I':
+        return ('S', mk_int(1, 40), mk_int(0x2d, 0x39), None)
+
+    def digits(x):
+        return len(str(abs(x))) + (1 if x < 0 else 0)
+    lo, hi = v[1], v[2]
+    cands = [digits(lo), digits(hi)] + ([1] if lo <= 0 <= hi else [])
+    dl = min(cands) if (lo >= 0 or hi <= 0) else 1
+    dh = max(digits(lo), digits(hi))
+    return ('S', mk_int(dl, dh), mk_int(0x2d, 0x39), None)
+
+
+@model(['deref', 'force'], pred=lambda c: 'once_cell' in (c.get('rdid') or c.get('did') or '') and 'Lazy' in (c.get('rself') or c.get('name') or ''))
+def lazy_deref(E, st, frame, b, t, c, args):
+    """the value of a `static X: Lazy<T> = Lazy::new(|| ..)`: the initialiser closure is interpreted once
+    (its obligations count) and the result is an immutable constant"""
+    r = E.expand(args[0])
+    dty = E.dest_ty(frame, t)
+    name = None
+    if r[0] == 'R' and isinstance(r[1], tuple) and r[1][0] == 'k' and r[1][1] == 'alloc':
+        a = E.prog.allocs.get(r[1][2])
+        name = a.get('static') if a else None
+    if name is None:
+        return ('T', dty, E.site(frame, b, 'lazy'))
+    cell = ('k', 'lazy', name)
+    if cell not in E.kcells:
+        body = E.prog.bodies.get(name + '::{closure#0}')
+        val = None
+        if body is not None and name not in E.lazy_running:
+            E.lazy_running.add(name)
+            try:
+                s0 = A.State()
+                d = frame.depth + 1
+                path = frame.path + ((frame.body['name'], b), ('lazy:' + name, 0))
+                fr = A.Frame(d, body, path, E.pathid(path), E.info(body))
+                s0.cells[(d, 1)] = ('A', ())
+                E.fn_seen.add(body['id'])
+                outs = E.run_body(fr, [s0])
+                if len(outs) >= 1:
+                    val = E.deep_resolve(outs[0][0], outs[0][1])
+                    for st2, v2 in outs[1:]:
+                        val = join(val, E.deep_resolve(st2, v2))
+            except A.AnalysisError:
+                val = None
+            finally:
+                E.lazy_running.discard(name)
+        pt = E.types.pointee(E.types.get(dty)) if dty is not None else None
+        E.kcells[cell] = val if val is not None else ('T', pt, ('lazy', name))
+    return ('R', cell, (), False)
+
+
+@model(['box_assume_init_into_vec_unsafe'], pred=lambda c: c.get('rcrate') == 'alloc')
+def vec_from_boxed_array(E, st, frame, b, t, c, args):
+    """tail of the vec![a, b, ..] expansion: the array written just before through the box pointer"""
+    arr = st.cells.get(('vecinit', frame.depth))
+    dty = E.dest_ty(frame, t)
+    ty = E.types.get(dty)
+    et = E.types.seq_elem(ty) if ty is not None else None
+    if arr is not None and arr[0] == 'S':
+        del st.cells[('vecinit', frame.depth)]
+        return arr
+    return ('S', mk_int(0, U63), ('T', et, None), None)
+
+
+def json_matches(prog, tyid, val, path='$', keys_of=None):
+    """does the JSON value deserialize into the type (serde derive defaults: all non-Option fields
+    required, unknown fields ignored)?  returns None or an error string"""
+    ty = prog.types[tyid]
+    k = ty['k']
+    if k in ('int', 'uint'):
+        if isinstance(val, bool) or not isinstance(val, int):
+            return '%s: expected integer' % path
+        lo, hi = A.int_range(ty)
+        return None if lo <= val <= hi else '%s: integer out of range' % path
+    if k == 'float':
+        return None if isinstance(val, (int, float)) and not isinstance(val, bool) else '%s: expected number' % path
+    if k == 'bool':
+        return None if isinstance(val, bool) else '%s: expected bool' % path
+    if k == 'adt':
+        n = ty['name']
+        if n in ('alloc::string::String', 'std::string::String'):
+            return None if isinstance(val, str) else '%s: expected string' % path
+        if n in ('alloc::vec::Vec', 'std::vec::Vec'):
+            if not isinstance(val, list):
+                return '%s: expected array' % path
+            for i, x in enumerate(val):
+                e = json_matches(prog, ty['args'][0], x, '%s[%d]' % (path, i), keys_of)
+                if e:
+                    return e
+            return None
+        if n in ('core::option::Option', 'std::option::Option'):
+            return None if val is None else json_matches(prog, ty['args'][0], val, path, keys_of)
+        if ty['ak'] == 'struct' and ty['variants'] and all('ty' in f for f in ty['variants'][0]['fields']):
+            if not isinstance(val, dict):
+                return '%s: expected object' % path
+            fields = ty['variants'][0]['fields']
+            keys = keys_of(ty) if keys_of else None
+            if keys is None or len(keys) != len(fields) or None in keys:
+                keys = [f['name'] for f in fields]       # no Serialize impl to read renames from: plain field names
+            for f, key in zip(fields, keys):
+                fty = prog.types[f['ty']]
+                opt = fty['k'] == 'adt' and fty['name'] in ('core::option::Option', 'std::option::Option')
+                if key not in val:
+                    if not opt:
+                        return '%s: missing field %s' % (path, key)
+                    continue
+                e = json_matches(prog, f['ty'], val[key], path + '.' + key, keys_of)
+                if e:
+                    return e
+            return None
+    return '%s: type %s not supported by the data rule' % (path, ty['s'])
+
+
+@model(['from_str'], pred=lambda c: (c.get('rdid') or c.get('did') or '').startswith('serde_json::de::from_str'))
+def serde_json_from_str(E, st, frame, b, t, c, args):
+    """serde_json::from_str(<embedded data file>): Ok when the constant deserializes into the target type
+    (data rule, evaluated on the literal of the current tree); the value itself stays abstract"""
+    import json as _json
+    dty = E.dest_ty(frame, t)
+    ty = E.types.get(dty)
+    okty = ty['variants'][0]['fields'][0].get('ty')
+    erty = ty['variants'][1]['fields'][0].get('ty')
+    lit = const_bytes_of(E, st, args[0])
+    if lit is None:
+        v = E.expand(args[0])
+        if v[0] == 'R' and isinstance(v[1], tuple) and v[1][0] == 'k' and v[1][1] == 'bytes':
+            lit = None
+    good = False
+    detail = 'argument is not a constant'
+    raw = _const_raw(E, st, args[0])
+    if raw is not None:
+        try:
+            data = _json.loads(raw.decode('utf8'))
+            def keys_of(sty):
+                from props import util
+                return util.serde_struct_keys(E.prog, sty.get('s') or sty.get('name'))
+            err = json_matches(E.prog, okty, data, keys_of=keys_of)
+            good = err is None
+            detail = err
+            if good:
+                E.json_consts[okty] = data
+        except ValueError as e:
+            detail = 'invalid JSON: %s' % e
+    E.const_checks.append(('json', E.types.get(okty)['s'], good, '%s:%s' % (frame.body['file'], t.get('sp')), detail))
+    parts = [(0, (('T', okty, E.site(frame, b, 'json')),))]
+    if not good:
+        parts.append((1, (('T', erty, None),)))
+    return ('E', T('e', E.site(frame, b, 'json')), tuple(parts))
+
+
+def _const_raw(E, st, v):
+    """raw bytes of a constant &str argument, also when it is too long to be kept element-wise"""
+    v = E.expand(v)
+    if v[0] == 'R' and isinstance(v[1], tuple) and v[1][0] == 'k':
+        raw = E.kraw.get(v[1])
+        if raw is not None:
+            return raw
+    return const_bytes_of(E, st, v)
+
+
+@model(['from_str_radix'], pred=_int_self)
+def int_from_str_radix(E, st, frame, b, t, c, args):
+    radix = E.scalar(st, args[1], E.types.by_name('u32'))
+    ok = radix[0] == 'I' and radix[1] >= 2 and radix[2] <= 36
+    oblig(E, frame, b, t, ok, 'from_str_radix panics unless 2 <= radix <= 36 (radix %s)' % (A.show_val(radix) if radix[0] == 'I' else '?'), nontrivial=False)
+    dty = E.dest_ty(frame, t)
+    ty = E.types.get(dty)
+    okty = ty['variants'][0]['fields'][0].get('ty')
+    erty = ty['variants'][1]['fields'][0].get('ty')
+    site = E.site(frame, b, 'fsr')
+    return ('E', T('e', site), ((0, (E.expand(('T', okty, site)),)), (1, (('T', erty, None),))))
